@@ -4,7 +4,11 @@ import os
 import re
 import resource
 import subprocess
+import threading
 import time
+
+_CPP_CACHE = {}
+_CPP_LOCK = threading.Lock()
 
 STUBS = os.path.join(os.path.dirname(os.path.dirname(os.path.abspath(__file__))), 'stubs')
 
@@ -124,22 +128,46 @@ def build_and_check(h, work, timeout, mem_gb=8, extra_defines=(), tag=''):
     objs = []
     try:
         if h.cpp:
-            o = os.path.join(d, 'unit.o')
-            cmd = ['goto-cc', '-nostdinc', '-I', STUBS, '-I', work, '-I', os.path.dirname(h.cpp)] + defs + \
-                  ['-D' + x for x in h.cpp_defines] + ['-c', h.cpp, '-o', o]
-            rc, out, dt = run(cmd, d, 300, mem_gb, log)
-            r.cmds.append(' '.join(cmd))
-            if rc != 0:
-                raise ToolError('goto-cc (C++) failed: ' + out.strip().splitlines()[-1][:300] if out.strip() else 'goto-cc failed')
-            objs.append(o)
+            cmd0 = ['goto-cc', '-nostdinc', '-I', STUBS, '-I', work, '-I', os.path.dirname(h.cpp)] + defs + \
+                   ['-D' + x for x in h.cpp_defines] + ['-c', h.cpp]
+            key = ' '.join(cmd0)
+            with _CPP_LOCK:
+                ent = _CPP_CACHE.get(key)
+                if ent is None:
+                    ent = _CPP_CACHE[key] = {'lock': threading.Lock(), 'obj': None, 'err': None}
+            with ent['lock']:
+                if ent['obj'] is None and ent['err'] is None:
+                    o = os.path.join(d, 'unit.o')
+                    rc, out, dt = run(cmd0 + ['-o', o], d, 600, mem_gb, log)
+                    if rc != 0:
+                        lines = [l for l in out.strip().splitlines() if 'error' in l] or out.strip().splitlines()[-3:]
+                        ent['err'] = 'goto-cc (C++) failed: ' + ' | '.join(lines)[:400]
+                    else:
+                        ent['obj'] = o
+            r.cmds.append(key + ' -o unit.o')
+            if ent['err']:
+                raise ToolError(ent['err'])
+            objs.append(ent['obj'])
         for i, cf in enumerate(h.c or []):
-            o = os.path.join(d, 'c%d.o' % i)
-            cmd = ['goto-cc', '-I', work, '-I', os.path.dirname(cf)] + defs + ['-c', cf, '-o', o]
-            rc, out, dt = run(cmd, d, 300, mem_gb, log)
-            r.cmds.append(' '.join(cmd))
-            if rc != 0:
-                raise ToolError('goto-cc (C) failed: ' + (out.strip().splitlines()[-1][:300] if out.strip() else ''))
-            objs.append(o)
+            cmd0 = ['goto-cc', '-I', work, '-I', os.path.dirname(cf)] + defs + ['-c', cf]
+            key = ' '.join(cmd0)
+            with _CPP_LOCK:
+                ent = _CPP_CACHE.get(key)
+                if ent is None:
+                    ent = _CPP_CACHE[key] = {'lock': threading.Lock(), 'obj': None, 'err': None}
+            with ent['lock']:
+                if ent['obj'] is None and ent['err'] is None:
+                    o = os.path.join(d, 'c%d.o' % i)
+                    rc, out, dt = run(cmd0 + ['-o', o], d, 300, mem_gb, log)
+                    if rc != 0:
+                        lines = [l for l in out.strip().splitlines() if 'error' in l] or out.strip().splitlines()[-3:]
+                        ent['err'] = 'goto-cc (C) failed: ' + ' | '.join(lines)[:400]
+                    else:
+                        ent['obj'] = o
+            r.cmds.append(key + ' -o c%d.o' % i)
+            if ent['err']:
+                raise ToolError(ent['err'])
+            objs.append(ent['obj'])
         a = os.path.join(d, 'a.gb')
         cmd = ['goto-cc', '--function', h.entry] + objs + ['-o', a]
         rc, out, dt = run(cmd, d, 300, mem_gb, log)
